@@ -53,6 +53,7 @@ func init() {
 	fr["os"] = rtPath + "/vos"
 	fr["github.com/fsnotify/fsnotify"] = rtPath + "/vfsnotify"
 	importSubst["rare/pkg/followreader"] = fr
+	importSubst["rare/pkg/extractor/batchers"] = fr
 }
 
 type rewriter struct {
@@ -63,6 +64,7 @@ type rewriter struct {
 	changed  bool
 	needRT   bool
 	mapRange bool
+	race     bool
 	errs     []string
 	tmp      int
 }
@@ -115,6 +117,9 @@ func (r *rewriter) fresh(base string) string {
 
 // rewriteFile applies all passes to one file.
 func (r *rewriter) rewriteFile() {
+	if r.race {
+		r.instrumentAccesses()
+	}
 	// statement-level rewrites first (they need the original node types),
 	// expression-level afterwards; astutil.Apply post-order so inner nodes are
 	// rewritten before the statements that contain them are restructured.
@@ -200,6 +205,144 @@ func (r *rewriter) rewriteFile() {
 			c.Replace(r.selectStmt(n))
 			r.changed, r.needRT = true, true
 		}
+		return true
+	})
+}
+
+// leafType reports whether accesses to a variable of type t are tracked:
+// scalar-like values only (no structs/arrays: the address of an aggregate is
+// the address of its first element, which would alias), and nothing whose
+// synchronisation is modelled by the runtime itself.
+func leafType(t types.Type) bool {
+	if t == nil {
+		return false
+	}
+	if n, ok := t.(*types.Named); ok && n.Obj().Pkg() != nil {
+		switch n.Obj().Pkg().Path() {
+		case "sync", "sync/atomic":
+			return false
+		}
+	}
+	switch u := t.Underlying().(type) {
+	case *types.Basic:
+		return u.Kind() != types.UnsafePointer
+	case *types.Pointer, *types.Slice, *types.Map, *types.Interface, *types.Signature:
+		return true
+	}
+	return false
+}
+
+// instrumentAccesses wraps reads and writes of struct fields and package
+// level variables declared in this package: x.f => *verifrt.Rd(&x.f, "T.f"),
+// assignment targets => *verifrt.Wr(&x.f, "T.f").
+func (r *rewriter) instrumentAccesses() {
+	type repl struct {
+		write bool
+		name  string
+	}
+	marks := map[ast.Expr]repl{}
+	var stack []ast.Node
+	ast.Inspect(r.file, func(n ast.Node) bool {
+		if n == nil {
+			stack = stack[:len(stack)-1]
+			return true
+		}
+		stack = append(stack, n)
+		var e ast.Expr
+		var name string
+		switch x := n.(type) {
+		case *ast.SelectorExpr:
+			sel := r.info.Selections[x]
+			if sel == nil || sel.Kind() != types.FieldVal {
+				return true
+			}
+			fld, ok := sel.Obj().(*types.Var)
+			if !ok || fld.Pkg() == nil || fld.Pkg().Path() != r.pkg.PkgPath {
+				return true
+			}
+			if !leafType(fld.Type()) {
+				return true
+			}
+			tv, ok := r.info.Types[x]
+			if !ok || !tv.Addressable() {
+				return true
+			}
+			recv := sel.Recv()
+			if p, ok := recv.(*types.Pointer); ok {
+				recv = p.Elem()
+			}
+			tn := "?"
+			if nt, ok := recv.(*types.Named); ok {
+				tn = nt.Obj().Name()
+			}
+			e, name = x, tn+"."+fld.Name()
+		case *ast.Ident:
+			v, ok := r.info.Uses[x].(*types.Var)
+			if !ok || v.IsField() || v.Pkg() == nil || v.Pkg().Path() != r.pkg.PkgPath || v.Parent() != v.Pkg().Scope() {
+				return true
+			}
+			if !leafType(v.Type()) {
+				return true
+			}
+			// the Sel of a selector or a key in a composite literal is not a use of the variable
+			if len(stack) >= 2 {
+				if p, ok := stack[len(stack)-2].(*ast.SelectorExpr); ok && p.Sel == x {
+					return true
+				}
+			}
+			e, name = x, r.pkg.Name+"."+v.Name()
+		default:
+			return true
+		}
+		if len(stack) < 2 {
+			return true
+		}
+		write := false
+		switch p := stack[len(stack)-2].(type) {
+		case *ast.UnaryExpr:
+			if p.Op == token.AND {
+				return true // address taken (atomics, method values): not an access
+			}
+		case *ast.AssignStmt:
+			for _, l := range p.Lhs {
+				if l == e {
+					write = true
+				}
+			}
+		case *ast.IncDecStmt:
+			write = p.X == e
+		case *ast.RangeStmt:
+			if p.Key == e || p.Value == e {
+				write = true
+			}
+		case *ast.KeyValueExpr:
+			if p.Key == e {
+				if _, isIdent := e.(*ast.Ident); isIdent {
+					return true
+				}
+			}
+		}
+		marks[e] = repl{write, name}
+		return true
+	})
+	if len(marks) == 0 {
+		return
+	}
+	astutil.Apply(r.file, nil, func(c *astutil.Cursor) bool {
+		e, ok := c.Node().(ast.Expr)
+		if !ok {
+			return true
+		}
+		m, ok := marks[e]
+		if !ok {
+			return true
+		}
+		fn := "Rd"
+		if m.write {
+			fn = "Wr"
+		}
+		c.Replace(&ast.StarExpr{X: call(rt(fn), &ast.UnaryExpr{Op: token.AND, X: e}, &ast.BasicLit{Kind: token.STRING, Value: strconv.Quote(m.name)})})
+		r.changed, r.needRT = true, true
 		return true
 	})
 }
@@ -353,6 +496,8 @@ func main() {
 	vrtDir := flag.String("vrt", "/verif/vrt", "runtime sources")
 	out := flag.String("out", "", "output directory")
 	mapRange := flag.String("maprange", "", "comma separated package paths whose map ranges are rewritten")
+	setConst := flag.String("setconst", "", "comma separated <pkgpath>.<Name>=<value>: replaces the value of a package-level constant (scale only)")
+	racePkgs := flag.String("race", "", "comma separated package paths whose field and package-variable accesses are instrumented for the happens-before detector")
 	extra := flag.String("extra", "", "directory with extra files to add to packages: <dir>/<pkg path relative to repo>/<file>.go")
 	flag.Parse()
 	if *out == "" {
@@ -366,6 +511,20 @@ func main() {
 			mr[p] = true
 		}
 	}
+
+	rp := map[string]bool{}
+	for _, p := range strings.Split(*racePkgs, ",") {
+		if p != "" {
+			rp[p] = true
+		}
+	}
+	consts := map[string]string{}
+	for _, kv := range strings.Split(*setConst, ",") {
+		if k, v, ok := strings.Cut(kv, "="); ok {
+			consts[k] = v
+		}
+	}
+	constsDone := map[string]bool{}
 
 	cfg := &packages.Config{
 		Mode:       packages.NeedName | packages.NeedFiles | packages.NeedCompiledGoFiles | packages.NeedSyntax | packages.NeedTypes | packages.NeedTypesInfo | packages.NeedImports | packages.NeedDeps,
@@ -399,8 +558,24 @@ func main() {
 			if strings.HasSuffix(name, "_test.go") || !strings.HasPrefix(name, *repo) {
 				continue
 			}
-			r := &rewriter{fset: p.Fset, info: p.TypesInfo, pkg: p, file: f, mapRange: mr[p.PkgPath]}
+			r := &rewriter{fset: p.Fset, info: p.TypesInfo, pkg: p, file: f, mapRange: mr[p.PkgPath], race: rp[p.PkgPath]}
 			r.rewriteFile()
+			for _, d := range f.Decls {
+				gd, ok := d.(*ast.GenDecl)
+				if !ok || gd.Tok != token.CONST {
+					continue
+				}
+				for _, sp := range gd.Specs {
+					vs := sp.(*ast.ValueSpec)
+					for k, nm := range vs.Names {
+						if v, ok := consts[p.PkgPath+"."+nm.Name]; ok && k < len(vs.Values) {
+							vs.Values[k] = &ast.BasicLit{Kind: token.INT, Value: v}
+							constsDone[p.PkgPath+"."+nm.Name] = true
+							r.changed = true
+						}
+					}
+				}
+			}
 			for _, im := range f.Imports {
 				path, _ := strconv.Unquote(im.Path.Value)
 				if to, ok := subst[path]; ok {
@@ -437,6 +612,12 @@ func main() {
 			writeIfChanged(dst, buf.Bytes())
 			overlay[name] = dst
 			nFiles++
+		}
+	}
+	for k := range consts {
+		if !constsDone[k] {
+			fmt.Fprintln(os.Stderr, "setconst: constant not found:", k)
+			bad = true
 		}
 	}
 	if bad {
